@@ -100,4 +100,10 @@ def strict : Ty → Bool
 /-- every parent of the store is in the strict fragment -/
 def StrictStore (σ : Store) : Prop := ∀ v p, parent σ v = some p → strict p = true
 
+/-- the answer of a call (for the kernel-evaluated witnesses) -/
+def verdict (o : Out) : Option Res := o.map (·.2)
+
+/-- the parent a call left for variable `v` -/
+def parentAfter (o : Out) (v : Nat) : Option Ty := o.bind fun x => parent x.1 v
+
 end Mimium.Unify
